@@ -175,7 +175,9 @@ NoAnnealingIsOne == (st \in {"run", "done"} /\ ~AnnOn(cfg)) => Temp = One
 \* Apalache, checked here on the variables of this specification): floor(min(k, nAnn) / period) once iteration k has cooled
 MinOf(a, b) == IF a < b THEN a ELSE b
 DecrementsClosedForm == (st \in {"run", "done"} /\ AnnOn(cfg) /\ NPlateau(cfg) >= 2 /\ Period(cfg) > 0 /\ phase \in {"cooled", "logged", "idle"})
-                          => j = MinOf(k, NAnn(cfg)) \div Period(cfg)
+                          => /\ j = MinOf(k, NAnn(cfg)) \div Period(cfg)
+                             \* (the relational form under which AnnealInd.tla introduces its `period`)
+                             /\ Period(cfg) * (NPlateau(cfg) - 1) <= NAnn(cfg) /\ NAnn(cfg) < (Period(cfg) + 1) * (NPlateau(cfg) - 1)
 \* C19 / C11: a configuration that was not refused runs to completion
 AcceptedCompletes == st # "crashed"
 Termination == <>(st \in {"done", "refused", "crashed"})
